@@ -226,15 +226,19 @@ def run(ctx: Ctx) -> None:
               "a per-session cache of the engine survives reset()")
 
     # ------------------------------------------------------------ R-C11.3
-    cc = idx.find_func("compile_cfg", "guppylang_internals.compiler.cfg_compiler")
-    from ..guards import lexical_guards
-    irv = [c for c in calls_in(cc.node) if call_name(c) == "insert_return_vars"]
-    ctx.floor("R-C11.3", "insert_return_vars call sites", len(irv), 1)
-    for c in irv:
-        gs = lexical_guards(cc.node, c) or []
-        ok = any("is_return_var" in ast.unparse(e) for e, _ in gs)
-        ctx.check(ok, "R-C11.3", f"{cc.qualname}#return-vars-inserted-once", f"{cc.module.rel}:{c.lineno}", {"guards": [ast.unparse(e)[:80] for e, _ in gs]},
-                  "lowering the same checked function twice inserts the dummy return variables twice")
+    from . import c11_once
+    once = c11_once.run(ctx)
+    if not once:
+        # fallback (the guard could not be interpreted): the call is lexically guarded by a test that mentions is_return_var
+        cc = idx.find_func("compile_cfg", "guppylang_internals.compiler.cfg_compiler")
+        from ..guards import lexical_guards
+        irv = [c for c in calls_in(cc.node) if call_name(c) == "insert_return_vars"]
+        ctx.floor("R-C11.3", "insert_return_vars call sites", len(irv), 1)
+        for c in irv:
+            gs = lexical_guards(cc.node, c) or []
+            ok = any("is_return_var" in ast.unparse(e) for e, _ in gs)
+            ctx.check(ok, "R-C11.3", f"{cc.qualname}#return-vars-inserted-once(guard shape)", f"{cc.module.rel}:{c.lineno}", {"guards": [ast.unparse(e)[:80] for e, _ in gs]},
+                      "lowering the same checked function twice inserts the dummy return variables twice")
     # other in-place mutations of checked objects in the compiler package
     muts = []
     for f in idx.iter_funcs(("guppylang_internals.compiler",)):
